@@ -56,7 +56,7 @@ def addMsg1 (z : α × α) (m : α) : α × α := (z.1, z.2 + m)
 structure Ct (α : Type) where
   v0 : List (α × α)
   v1 : List (α × α)
-  deriving Repr, BEq, Inhabited
+  deriving Repr, BEq, DecidableEq, Inhabited
 
 /-- rows of `Value[0]`: `ez a e s + (pg·g, 0)`; `pgs` = the scaled gadget vector `P·w_k`,
     `smp` = the samples `(a_k, e_k)` -/
